@@ -38,10 +38,11 @@ QUOTE = 'C01-quote-collision'
 PIPE = [P('Src', params=[par('x')]),
         P('Mid', params=[par('y', default=5)], inputs=[inp('Src')], data='dir'),
         P('Out', inputs=[inp('Mid'), inp('src', 'name')], data='json'),
-        P('Note', params=[par('x')], data='mem')]
+        P('Note', params=[par('x')], data='mem'),
+        P('Feed', inputs=[inp('Src')], data='lazy')]
 PAIRS = [({'x': 0}, {'x': False}), ({'x': 1}, {'x': 1.0}), ({'x': ''}, {'x': None}),
          ({'x': ['a', 'b']}, {'x': ["a', 'b"]}), ({'x': 0, 'y': 5}, {'x': 0, 'y': 6}), ({'x': 'k'}, {'x': 'k'})]
-NAMES = ['src', 'mid', 'out', 'note']
+NAMES = ['src', 'mid', 'out', 'note', 'feed']
 
 
 def bounds(tier):
@@ -54,9 +55,9 @@ def cases(tier):
     out = []
     h = 3 if tier == 'quick' else 4
     for pi in range(len(PAIRS)):
-        if tier == 'quick' and pi in (1, 5):
+        if tier == 'quick' and pi in (1, 4, 5):
             continue
-        for first in range(3):         # the starting state is partitioned over workers
+        for first in ((0, 2) if tier == 'quick' else range(3)):         # the starting state is partitioned over workers
             out.append(('H1', pi, h, first, tier == 'quick'))
     for pipe in ('chain3', 'diamond'):
         for ns in (None, 'ns'):
@@ -100,7 +101,7 @@ def h1(case):
     cfgs = list(PAIRS[pi])
     OPS = [('build', 0), ('build', 1)] + [('req', j) for j in range(4)] + \
           [('forcereq', j) for j in ((0, 1) if slim else range(3))] + \
-          [('failreq', j) for j in ((1, 2) if slim else range(3))] + [('restart', 0)]
+          [('failreq', j) for j in ((1, 2) if slim else range(3))] + [('req', 4), ('failitem', 4), ('restart', 0)]
 
     def harness(ctx):
         world = hist.World(PIPE, cfgs)
@@ -135,6 +136,23 @@ def h1(case):
                     world.chain(cur).force(name)
                     ref.force(cur, [name])
                 fail = None
+                if op == 'failitem':
+                    # the generator body of the lazily generated result raises after its first item
+                    def boom_item(task, kk):
+                        if kk == 1:
+                            family.FAIL.pop('feed/item', None)
+                            raise hist.RunFailed('feed/item')
+                    if ref.obj(cur, name) not in ref.mem and not ref.has_data(cur, name):
+                        family.FAIL['feed/item'] = boom_item
+                        try:
+                            world.request(cur, name)
+                        except hist.RunFailed:
+                            pass
+                        family.FAIL.pop('feed/item', None)
+                        # the reference: the computation started (inputs were computed and stored) and failed
+                        for i_ in ref.inputs(cur, name):
+                            ref.request(cur, i_)
+                    continue
                 if op == 'failreq':
                     fail = ref.ev(cur)[name]['slug']
 
@@ -157,7 +175,7 @@ def h1(case):
             k = world.build(ci)
             kr = hist.Ref(PIPE, cfgs)
             kr.build(ci)
-            for n in NAMES[:3]:
+            for n in NAMES[:3] + ['feed']:
                 if world.task(k, n).has_data:
                     mark = world.mark()
                     got = world.request(k, n)
